@@ -262,6 +262,10 @@ func genCase(t *rapid.T) *Case {
 	c.G.NoMethod = rapid.Bool().Draw(t, "noMethod")
 	c.G.AutoOptions = rapid.Bool().Draw(t, "autoOptions")
 	c.G.NoMethodOff = !c.G.NoMethod && gen.Chance(t, 1, 3, "nomethodoff")
+	if gen.Chance(t, 1, 3, "defaultspecials") {
+		// fox's own 405 / automatic-OPTIONS handlers, observed by a middleware
+		c.G.DefaultSpecials, c.G.NoMethodOff = true, false
+	}
 	if gen.Chance(t, 1, 4, "presetallow") {
 		c.PresetAllow = gen.Pick(t, []string{"TRACE", "GET, BREW", "OPTIONS"}, "presetallowvalue")
 	}
@@ -315,6 +319,19 @@ func genCase(t *rapid.T) *Case {
 			}
 		}
 		c.Reqs = append(c.Reqs, q)
+	}
+	// request header fields a browser or a proxy adds: none of them changes which methods serve a path
+	for i := range c.Reqs {
+		if gen.Chance(t, 1, 3, "reqheader") {
+			c.Reqs[i].Header = gen.Pick(t, [][]string{
+				{"Origin: https://app.example", "Access-Control-Request-Method: POST"},
+				{"Origin: https://app.example", "Access-Control-Request-Method: DELETE", "Access-Control-Request-Headers: x-token"},
+				{"Origin: null"},
+				{"Access-Control-Request-Method: GET"},
+				{"Allow: BREW", "Accept: */*"},
+				{"X-Http-Method-Override: GET", "X-Forwarded-Host: a.b"},
+			}, "reqheaders")
+		}
 	}
 	return c
 }
